@@ -200,6 +200,11 @@ TraceNext ==
                 THEN Verdict([l |-> l, ev |-> "chain", kind |-> "KNOWN", dev |-> "Dev_DeepMacroChainAborts", why |-> <<ev.depth, ev.status>>])
                 ELSE Verdict([l |-> l, ev |-> "chain", kind |-> "MISMATCH", dev |-> "", why |-> <<ev.depth, ev.status, ev.timeout, ev.err>>]))
             /\ UNCHANGED st
+       \* all word pairs of one operation against the byte tables composed by the ripple lemma (C01)
+       [] ev.ev = "sweep16" ->
+            /\ (IF ev.bad = << >> THEN TRUE
+                ELSE Verdict([l |-> l, ev |-> "sweep16", kind |-> "MISMATCH", dev |-> "", why |-> <<ev.op, ev.cin, ev.bad>>]))
+            /\ UNCHANGED st
        \* a REP line still answered REPEAT after CX + 3 invocations
        [] ev.ev = "nonterminating" ->
             /\ Verdict([l |-> l, ev |-> "nonterminating", kind |-> "MISMATCH", dev |-> "", why |-> ev.invocations])
